@@ -14,4 +14,4 @@ The property:
 
 Your task: produce up to THREE different, realistic source changes (each a separate small patch to files under src/amisc, of the kind a plausible refactoring slip, off-by-one, wrong variable, stale cache, reordered statement, sign error or "optimisation" could introduce) each of which BREAKS this property while the package still imports and the ENTIRE existing test suite still passes exactly as before (57 passed, 1 failed test_init_methods). Prefer changes that need something specific to manifest — a multi-step sequence of operations, an unusual but legal input, a particular history/order, a corner of the parameter space, or two cooperating sites that each look fine alone — NOT ones that any ordinary use would expose at once. For each change also write a small standalone demonstration script (plain python, no pytest needed) that exits 0 on the unchanged tree and exits 1 (printing what went wrong) with your change applied, exercising only public behaviour of amisc.
 
-Deliverables, in {wt}/mutants/<k>/ for k = 1,2,3: `patch.diff` (output of `git diff` for that change alone, applicable with `git apply` to the unchanged tree), `demo.py`, and `meta.json` with keys: property ("{pid}"), summary (one sentence: what was changed), needs (what specific input/sequence/order is needed for it to manifest), suite ("57 passed, 1 failed" as you observed it with the change applied — actually run the full suite for each change). Before finishing, for each mutant: `git stash`/`git checkout -- src` to the clean tree, verify demo exits 0; apply patch, verify demo exits 1 and the full suite result is unchanged; then restore the clean tree (leave the worktree clean apart from the mutants/ directory). If you cannot find a change that survives the suite, say so rather than delivering one that fails tests. Report at the end a short list: per mutant the summary, needs, and the verification results you observed.""")
+Deliverables, in {wt}/mutants/<k>/ for k = 1,2,3: `patch.diff` (output of `git diff` for that change alone, applicable with `git apply` to the unchanged tree), `demo.py`, and `meta.json` with keys: property ("{pid}"), summary (one sentence: what was changed), needs (what specific input/sequence/order is needed for it to manifest), suite ("57 passed, 1 failed" as you observed it with the change applied — actually run the full suite for each change). Before finishing, for each mutant: `git checkout -- src` to get the clean tree (NEVER use `git stash`: it is shared between worktrees), verify demo exits 0; apply patch, verify demo exits 1 and the full suite result is unchanged; then restore the clean tree (leave the worktree clean apart from the mutants/ directory). If you cannot find a change that survives the suite, say so rather than delivering one that fails tests. Report at the end a short list: per mutant the summary, needs, and the verification results you observed.""")
